@@ -40,6 +40,9 @@ fn check(t: &mut Tape, ctx: &mut Ctx) -> CheckResult {
 fn check_value(ctx: &mut Ctx, f: &sv::SOH, want: (&[u32], &[u32]), what: &str) -> Result<Diagram, Violation> {
     ctx.sub("output-well-formed");
     let d = sv::from_strict(f).map_err(|e| ctx.fail("output-well-formed", format!("{what}: result is not well-formed: {e}")))?;
+    // clones are equal data
+    let c = f.clone();
+    ensure!(ctx, c.s == f.s && c.t == f.t && c.h.s == f.h.s && c.h.t == f.h.t && c.h.w == f.h.w && c.h.x == f.h.x, "output-well-formed", "{what}: clone() differs from the original");
     // the library's own validation must agree
     ensure!(ctx, f.clone().validate().is_ok(), "output-well-formed", "{what}: result fails the library's own validate()");
     ctx.sub("output-type");
